@@ -2,6 +2,7 @@ package checks
 
 import (
 	"fmt"
+	"os"
 	"reflect"
 	"time"
 
@@ -78,7 +79,7 @@ func c04Methods(r *core.Run, worker int, p adapt.Parser, in *Input, v any) {
 
 func runC04(r *core.Run) {
 	r.Rule = "every parser on every input of its own family (E1 bases at bound 2/3 + the full operator menu + byte-walk), every parser on every base of every other family and on all operators applied to each family's default base; all 65,536 type codes through every function taking a type x data lengths around the table size; integer sizes -2..10; base32/64 decoders on short texts. After every accepted base (and accepted mutants of default bases) every exported method is invoked by reflection with small argument menus, and argument-free methods of library-typed results. Oracle: recover() => violation; watchdog for calls that do not return. non-trivial = distinct (parser,input) accepted parses whose methods were exercised"
-	r.Assume("time bound: a per-call watchdog (120 s) backs the no-hang claim in this tier; the step-count bound on an instrumented build is part of C18's build and reported there",
+	r.Assume("time bound: in the instrumented build (the one ./vrun uses for C04) a single-threaded pass counts executed library statements per call and requires steps <= 30000 + 600*len(input) (more than twenty times the largest ratio measured on the unchanged tree, see step_bound_* in coverage); a 120 s per-call watchdog is only a backstop",
 		"methods whose parameter types have no menu are counted in methods_without_argument_menu_*")
 	o := enumOpts{BaseBound: 2, MutateBound: 1}
 	if !r.Quick() {
@@ -124,6 +125,7 @@ func runC04(r *core.Run) {
 		}
 	})
 	c04TypeSweeps(r)
+	c04StepBound(r)
 	r.Sample(map[string]any{"parser": "keys_and_cert.ReadKeysAndCert", "sweep": "signing code 0..65535 x crypto {0,4}; crypto code 0..65535 x signing {7,0}"})
 	r.Sample(map[string]any{"method": "(*router_address.RouterAddress).IntroducerHashString", "args": "int menu -1,0,1,2,16,2^31"})
 }
@@ -311,4 +313,68 @@ func nonMutators(v any) map[string]bool {
 		}
 	}
 	return out
+}
+
+// c04StepBound: "time bounded by the input length", decided without a wall clock. In the
+// instrumented build every library statement increments a step counter; each (parser, input)
+// call of this single-threaded pass must stay below stepA + stepB*len(input). The constants are
+// more than twenty times the largest ratio measured on the unchanged tree (24.5 steps per byte for a
+// 255-address RouterInfo; recorded in the evidence on every run).
+const (
+	stepA = 30000
+	stepB = 600
+)
+
+func c04StepBound(r *core.Run) {
+	if !instrumented {
+		r.Note("step_bound", "not evaluated: non-instrumented binary (run through ./vrun)")
+		return
+	}
+	var maxSteps, calls int64
+	var maxRatio float64
+	worst := ""
+	old := core.Workers
+	_ = old
+	os.Setenv("VERIF_WORKERS", "1")
+	defer os.Unsetenv("VERIF_WORKERS")
+	o := enumOpts{BaseBound: 1, MutateBound: 0}
+	if !r.Quick() {
+		o = enumOpts{BaseBound: 2, MutateBound: 1}
+	}
+	enumerateInputs(r, o, func(worker int, in *Input) {
+		own := map[string]bool{}
+		for _, fam := range parserFamiliesFor(in.Family, in.Aux) {
+			own[fam] = true
+		}
+		for _, p := range adapt.Parsers {
+			if !own[p.Family] && in.Class != "base" {
+				continue
+			}
+			before := stepCount()
+			var res adapt.Parsed
+			core.Guard(func() {
+				res = p.Fn(in.Bytes)
+				if res.OK && res.Ser != nil {
+					res.Ser()
+				}
+			})
+			d := stepCount() - before
+			calls++
+			if d > maxSteps {
+				maxSteps = d
+			}
+			if ratio := float64(d) / float64(len(in.Bytes)+1); ratio > maxRatio && d > 2000 {
+				maxRatio = ratio
+				worst = fmt.Sprintf("%s on %d bytes (%s %s): %d steps", p.Name, len(in.Bytes), in.Class, in.Detail, d)
+			}
+			if d > stepA+stepB*int64(len(in.Bytes)) {
+				r.Violate("C04|steps-exceed-linear-bound|"+p.Name, fmt.Sprintf("%s executes %d library statements on a %d-byte input (bound %d + %d*len) (%s %s; %s)", p.Name, d, len(in.Bytes), stepA, stepB, in.Class, in.Detail, in.Base), in.Case(p.Name))
+			}
+		}
+	})
+	r.Note("step_bound_calls", calls)
+	r.Note("step_bound_max_steps_in_one_call", maxSteps)
+	r.Note("step_bound_worst_ratio_steps_per_byte", maxRatio)
+	r.Note("step_bound_worst_case", worst)
+	r.Note("step_bound", fmt.Sprintf("steps <= %d + %d*len(input)", stepA, stepB))
 }
